@@ -167,12 +167,27 @@ def merge(parts):
 # --------------------------------------------------------------------------------------
 # sharded execution
 
+class ShardTimeout(BaseException):
+    pass
+
+
 def _shard_entry(args):
     fn_mod, fn_name, kwargs = args
+    import signal
+
+    def on_alarm(sig, frm):
+        raise ShardTimeout("shard watchdog expired (a case blocked outside the controlled loop?)")
+    try:
+        # hard watchdog: a hang is a harness error (exit 2), never a silent block
+        signal.signal(signal.SIGALRM, on_alarm)
+        signal.alarm(int(os.environ.get("MVF_WATCHDOG_S", "900" if kwargs.get("tier") == "quick" else "10800")))
+    except Exception:  # noqa
+        pass
     try:
         import importlib
         mod = importlib.import_module(fn_mod)
         acc = getattr(mod, fn_name)(**kwargs)
+        signal.alarm(0)
         return acc.to_json()
     except BaseException:
         a = Acc(kwargs.get("prop", "?"))
